@@ -194,24 +194,33 @@ def run_search(ctx, tier, seed, shard, nshards, examples, t_end, shrink_cap):
     mod, st = ctx.mod, ctx.stats
     interactive = hasattr(mod, 'interactive')
     per = max(1, examples // nshards)
-    for rnd in range(MAX_ROUNDS):
+    # The shard's examples are generated in chunks, each a separate
+    # Hypothesis run with its own derived seed; the time budget is checked
+    # between chunks (never inside a test body: returning or raising there
+    # makes interactive draws look inconsistent to Hypothesis).  A budget
+    # hit ends the search as "inconclusive for the remainder".
+    chunk = max(20, min(500, per // 8))
+    remaining = per
+    chunk_no = 0
+    rounds = 0
+    while remaining > 0:
+        if time.time() > t_end:
+            st.budget_skipped += remaining
+            st.notes.append('time budget reached: %d examples of this shard '
+                            'not generated (inconclusive, not a violation)'
+                            % remaining)
+            break
+        n = min(chunk, remaining)
         state = dict(target=None, best=None, best_detail='', calls=0,
                      best_canon=None)
 
         def body(x):
-            if state['target'] is None and time.time() > t_end:
-                st.budget_skipped += 1
-                return
             counting = state['target'] is None
             if not counting:
                 state['calls'] += 1
                 if state['calls'] > shrink_cap and not interactive and \
                         canon(x) != state['best_canon']:
                     return
-                if state['calls'] > shrink_cap and interactive:
-                    # cannot compare draws up front: run, but accept only
-                    # the known-best journal
-                    pass
             if interactive:
                 unknown, res = ctx.evaluate(lambda: mod.interactive(x.draw),
                                             None, count=counting)
@@ -237,7 +246,7 @@ def run_search(ctx, tier, seed, shard, nshards, examples, t_end, shrink_cap):
         strat = hst.data() if interactive else mod.strategy(tier)
         test = given(strat)(body)
         test = settings(
-            max_examples=per, database=None, deadline=None,
+            max_examples=n, database=None, deadline=None,
             derandomize=False, report_multiple_bugs=False,
             phases=[Phase.generate, Phase.shrink],
             verbosity=Verbosity.quiet, print_blob=False,
@@ -245,7 +254,9 @@ def run_search(ctx, tier, seed, shard, nshards, examples, t_end, shrink_cap):
                                    HealthCheck.data_too_large,
                                    HealthCheck.large_base_example],
         )(test)
-        test = hypothesis.seed(derive_seed(seed, shard, rnd))(test)
+        test = hypothesis.seed(derive_seed(seed, shard, chunk_no))(test)
+        chunk_no += 1
+        remaining -= n
         try:
             test()
         except Violation:
@@ -254,16 +265,18 @@ def run_search(ctx, tier, seed, shard, nshards, examples, t_end, shrink_cap):
             if state['target'] is None:
                 # not one of ours: health check / flaky / harness bug
                 raise HarnessError('search aborted: %s: %s\n%s' % (
-                    type(e).__name__, e, traceback.format_exc()))
+                    type(e).__name__, str(e)[:500],
+                    traceback.format_exc()[-3000:]))
             st.notes.append('shrink ended with %s: %s' % (
                 type(e).__name__, str(e)[:200]))
         if state['target'] is None:
-            break
+            continue
         ctx.excluded.add(state['target'])
         st.violations.append(dict(sig=state['target'],
                                   detail=state['best_detail'],
                                   spec=state['best']))
-        if time.time() > t_end:
+        rounds += 1
+        if rounds >= MAX_ROUNDS:
             break
 
 
@@ -405,7 +418,8 @@ def main(argv=None):
 
     budget = mod.BUDGET[tier]
     nshards = int(budget.get('shards', a.shards))
-    t_end = t0 + float(budget.get('max_s', 900 if tier == 'quick' else 3600))
+    t_end = t0 + float(os.environ.get('VF_MAX_S') or
+                        budget.get('max_s', 900 if tier == 'quick' else 3600))
     base = '/dev/shm' if os.path.isdir('/dev/shm') and \
         os.access('/dev/shm', os.W_OK) else None
     outdir = tempfile.mkdtemp(prefix='vf-%s-' % prop, dir=base)
